@@ -885,6 +885,49 @@ class C16(Spec):
         self._clipping(ctx, deep)
         self._within_step(ctx, deep)
         self._interleaving(ctx, deep)
+        self._retained(ctx, deep)
+
+    def _retained(self, ctx, deep):
+        """Copy through the tools with RETAINED blocks: decode every block of a file first, encode them afterwards (what
+        `blocks = list(reader.iter_sample_blocks(n))` followed by writing does).  Every tool must return a result that
+        later calls of the same tool do not change: same-shape calls in a row, mono and multi-channel, every depth;
+        also through Bw64Reader.read on two readers used in lock-step."""
+        import io
+        u = real()
+        from ear.fileio.bw64 import Bw64Reader
+        rng = ctx.rng
+        for b in DEPTHS:
+            nb = b // 8
+            for ch in (1, 2, 3, 5):
+                for nf in (1, 4, 64):
+                    nblocks = 3 if not deep else 6
+                    blocks_codes = [[int(rng.randrange(-(2 ** (b - 1)) + 1, 2 ** (b - 1))) for _ in range(nf * ch)]
+                                    for _ in range(nblocks)]
+                    raw = [codes_to_bytes(cs, b) for cs in blocks_codes]
+                    dec, snaps = [], []
+                    for bs in raw:   # decode everything first, keeping every returned array
+                        d = u.deinterleave(u.decode_pcm_samples(bs, b), ch)
+                        dec.append(d)
+                        snaps.append(np.array(d, copy=True))
+                    ctx.count("search:retained:%dbit:%dch" % (b, ch))
+                    for i, (d, sn, bs) in enumerate(zip(dec, snaps, raw)):
+                        if not np.array_equal(np.asarray(d), sn):
+                            ctx.hit("a decoded/deinterleaved block changed when a later block of the same shape was decoded "
+                                    "(copying with retained blocks alters the audio)",
+                                    dict(bitdepth=b, channels=ch, frames=nf, block=i, blocks=[x.hex() for x in raw]),
+                                    dict(when_returned=sn.tolist()[:4], later=np.asarray(d).tolist()[:4]),
+                                    ["retained-block-aliased"])
+                            break
+                        out = u.encode_pcm_samples(u.interleave(np.asarray(d)), b)
+                        if bytes(out) != canon_codes_bytes(bs, b):
+                            ctx.hit("decode every block, then encode: bytes differ from the canonical codes",
+                                    dict(bitdepth=b, channels=ch, frames=nf, block=i, blocks=[x.hex() for x in raw]),
+                                    dict(got=bytes(out).hex()[:64]), ["retained-copy-differs"])
+                            break
+
+
+def canon_codes_bytes(bs, b):
+    return codes_to_bytes(canon_codes(bytes_to_codes(bs, b), b), b)
 
 
 SPEC = C16()
